@@ -161,7 +161,7 @@ func churnNonTrivial(sc churnScenario) bool {
 }
 
 func churnEngine(r *evid.Run) evid.Engine {
-	return evid.RapidEngine("churn", evid.RapidOpts{Quick: 150, Thorough: 6000}, genChurn, func(sc churnScenario) *evid.Failure {
+	return evid.RapidEngine("churn", evid.RapidOpts{Quick: 150, Thorough: 3000}, genChurn, func(sc churnScenario) *evid.Failure {
 		f := execChurn(sc)
 		if f == nil {
 			key := ""
